@@ -161,8 +161,12 @@ V_C11(e, okR, c, r, r2, rec, st2) ==
         k \in {k \in calls : k[1] = "recv" /\ k[6] # "" /\ k[6] \in Chains /\ k[6] # c /\
                              ~\E x \in ever[k[6]].cm : x[1] = k[3] /\ x[2] = k[4] /\ x[3] = k[5]}}
 
+\* the detail names what differs from the packet as sent and the role the processing chain has in the packet as presented
+\* ("none": the presented packet does not name this chain at all)
+RoleOf(c, p) == IF c = p.src THEN "src" ELSE IF c = p.dst THEN "dst" ELSE IF c = p.relay THEN "relay" ELSE "none"
 V_C13(e, okR, c, r, r2, rec, st2) ==
-  If(e.act \in {"Recv", "Ack"} /\ okR /\ e.pkt \notin sent, Lbl("C13", "packet_not_as_sent", e.act \o ":" \o DiffFields(e.pkt)))
+  If(e.act \in {"Recv", "Ack"} /\ okR /\ e.pkt \notin sent,
+     Lbl("C13", "packet_not_as_sent", e.act \o ":" \o DiffFields(e.pkt) \o "@" \o RoleOf(c, e.pkt)))
 
 V_C14(e, okR, c, r, r2, rec, st2) ==
   LET from == CASE e.act = "Recv" -> RecvFrom(c, e.pkt)
